@@ -82,6 +82,11 @@ type Sink struct {
 // no CPU time before it is declared blocked.
 const IdleLimit = 45 * time.Second
 
+// IdleCPU is the CPU time below which a window of IdleLimit counts as idle: half a percent
+// of the window. An idle Go process uses about a tenth of a percent for its housekeeping; a
+// call that is merely slow on a machine with a load of a thousand still gets more than this.
+const IdleCPU = 0.25
+
 func cpuSeconds() float64 {
 	var ru syscall.Rusage
 	if syscall.Getrusage(syscall.RUSAGE_SELF, &ru) != nil {
@@ -110,14 +115,21 @@ func (s *Sink) Watch(budget float64, caseID func(int64) string) {
 			// A call that is blocked (a goroutine waiting on a channel nobody serves, a read
 			// from a pipe nobody writes) consumes no CPU, so the CPU budget never runs out.
 			// It is told from a slow call by just that: a slow call on a loaded machine still
-			// runs now and then and its CPU clock advances; 20 ms in 45 s is less than any
-			// runnable process gets. The wall clock only paces the reading of the CPU clock.
-			if now-s.progressCPU > 0.02 || s.progressWall.IsZero() {
+			// runs now and then and its CPU clock advances. The wall clock only paces the
+			// reading of the CPU clock.
+			if s.progressWall.IsZero() {
 				s.progressCPU, s.progressWall = now, time.Now()
 			}
-			if s.CaseBudget > 0 && !s.IdleExempt && s.caseDesc != nil && time.Since(s.progressWall) > IdleLimit {
+			idle := false
+			if time.Since(s.progressWall) > IdleLimit {
+				// one window is over: less than IdleCPU in it means nothing ran but the
+				// runtime's own housekeeping (about 1 ms per second, measured)
+				idle = now-s.progressCPU < IdleCPU
+				s.progressCPU, s.progressWall = now, time.Now()
+			}
+			if s.CaseBudget > 0 && !s.IdleExempt && s.caseDesc != nil && idle {
 				s.Counters["violations"]++
-				s.write(&Record{Type: "violation", Monitor: "process", Class: "blocked", Detail: fmt.Sprintf("the case has been open for more than %v during which the process consumed no CPU time: the call is blocked, not slow", IdleLimit), Case: s.caseDesc, CaseID: s.caseID(s.caseIndex), Index: s.caseIndex})
+				s.write(&Record{Type: "violation", Monitor: "process", Class: "blocked", Detail: fmt.Sprintf("the case has been open for more than %v during which the process consumed less than %.2f s of CPU time: the call is blocked, not slow", IdleLimit, IdleCPU), Case: s.caseDesc, CaseID: s.caseID(s.caseIndex), Index: s.caseIndex})
 				s.flushLocked()
 				s.w.Flush()
 				os.Exit(3)
